@@ -69,11 +69,11 @@ func (w *World) verifyLemma(l *Lemma) (res *FnResult) {
 	for _, u := range l.Uses {
 		_ = u
 	}
-	for _, u := range l.UseStmts {
-		fr.lemmaUse(u, env)
-	}
 	for _, a := range l.Assumes {
 		x.em.Assert(fr.evalBool(a.Expr, env))
+	}
+	for _, u := range l.UseStmts {
+		fr.lemmaUse(u, env)
 	}
 	for i, s := range l.Shows {
 		fr.oblige("lemma", l.Name+":"+s.label(i), fr.evalBool(s.Expr, env), s.Src)
